@@ -43,7 +43,12 @@ def do_replay(prop_id, path):
     mod = load(prop_id)
     runner.bind()
     rec = json.load(open(path))
-    res = mod.replay(rec['case'])
+    if rec.get('history_dependent'):
+        acc = mod.run_shard(rec['shard'])
+        res = [v for v in acc.viol if v['sub'] == rec['sub'] and runner.jsonable(v['case']) == rec['case']]
+        print('(history-dependent violation: re-ran the whole shard %s)' % json.dumps(rec['shard']))
+    else:
+        res = mod.replay(rec['case'])
     print('replay of %s (%s, sub=%s)' % (path, rec['property'], rec['sub']))
     print('  case:      %s' % json.dumps(rec['case'])[:1000])
     print('  recorded:  expected=%s' % json.dumps(rec['expected'])[:600])
@@ -113,6 +118,15 @@ def main(argv):
                 rc = max(rc, run_check(p, tier))
             return rc
         prop_id = argv[0].upper()
+        if '--replay-shard' in argv:
+            mod = load(prop_id)
+            runner.bind()
+            shard = json.loads(argv[argv.index('--replay-shard') + 1])
+            acc = mod.run_shard(shard)
+            for v in acc.viol:
+                print('SHARD ' + json.dumps({'sub': v['sub'], 'case': runner.jsonable(v['case']),
+                                             'observed': runner.jsonable(v['observed'])}))
+            return 1 if acc.viol else 0
         if '--replay' in argv:
             return do_replay(prop_id, argv[argv.index('--replay') + 1])
         return run_check(prop_id, tier)
